@@ -172,6 +172,18 @@ func (e *Env) trBool(x Expr) string {
 }
 
 func (e *Env) lookupIdent(name string) (Val, bool) {
+	v, ok := e.lookupIdent1(name)
+	if !ok && e.fr != nil && e.fr.renamed != nil {
+		if nn, has := e.fr.renamed[name]; has {
+			if v, ok = e.lookupIdent1(nn); ok {
+				e.vc.trusted[fmt.Sprintf("%s: contract name %s bound to the renamed variable %s (same kind, type and position; tools/names.json)", e.fr.key, name, nn)] = true
+			}
+		}
+	}
+	return v, ok
+}
+
+func (e *Env) lookupIdent1(name string) (Val, bool) {
 	for i := len(e.bound) - 1; i >= 0; i-- {
 		if e.bound[i].name == name {
 			return e.bound[i].val, true
